@@ -201,6 +201,10 @@ def mk_eval_cases(g, n, prefix, funcs=0.0, acc=0.0, jnum=0.15, opaque=0.0, filte
             doc, path = gens.jnum_order_family(g)
             cases.append(Case('%s%d' % (prefix, i), path, [doc], [], [], acc=(g.r.random() < acc), meta={'nsteps': 2, 'family': 'jnum-order'}))
             continue
+        if k < families * 0.35 and funcs:
+            doc, path, aggs = gens.operand_agg_family(g)
+            cases.append(Case('%s%d' % (prefix, i), path, [doc], [], aggs, acc=(g.r.random() < acc), meta={'nsteps': 3, 'family': 'operand-aggregate'}))
+            continue
         if k < families * 0.8:
             kinds = None
             if opaque and g.r.random() < 0.5:
